@@ -32,10 +32,12 @@ ASSUMPTIONS = [
 OPEN_STATEMENTS = [
     'hubbard_sound (operator-level: the Model output of fermi_hubbard / bose_hubbard / mean_field_dwave / FermiHubbardModel denotes the docstring formula for ALL sizes) is not a theorem: covered by the docstring / spec.eq oracles on the explored lattices; proved for all sizes: the bond enumerations equal the Spec edge set (bonds_spec, dwave_bonds_spec, lattice_neighbors_spec, diagonal_neighbors_spec, neighbors_ordered_perm, diagonal_ordered_perm, hubbard_generators_agree_bonds), every generated term has zero charge for N (and S_z where the model conserves it) and zero-charge terms preserve the Spec weight of basis states (term_charge_sound), the grid index bijection',
     'hermitian_generators is covered by the spec.eq oracle only',
-    'horizontal_neighbor / vertical_neighbor edge types separately (Spec adjH / adjV) and the onsite edge type: correspondence + Spec oracle only; the theorem is stated for their union (neighbor)',
+    'onsite edge type and spin_pairs_iter: correspondence + Spec oracle only',
     'bose_hubbard / mean_field_dwave / FermiHubbardModel: S_z conservation of FermiHubbardModel is covered by the spec.eq oracle only',
     'su2_relations for all n: oracle only (n <= 3)',
+    'RichardsonGaudin: Model + documented-form oracle only, no theorem; get_antisymmetrized_tensors is not covered',
     'fourier_transform_unitary_structure / isospectrality: numeric oracle only',
+    'dual_basis_jellium_model ignores non_periodic / period_cutoff (the truncated Coulomb factor is only applied in plane_wave_potential): known finding C13-dual-basis-non-periodic',
     'isospectrality of momentum-space and position-space jellium fails on non-orthogonal cells with mixed even / >= 3 grid lengths: known finding C13-jellium-sheared-even',
 ]
 
@@ -229,7 +231,7 @@ def lattice_sizes(ctx, quick_max, thorough_max):
     return [(x, y) for x in range(1, m + 1) for y in range(1, m + 1)]
 
 
-def stream_bonds(ctx, E):
+def stream_bonds(ctx, E, only=None):
     of = ctx.of
     from openfermion.hamiltonians import hubbard as hub
     from openfermion.utils import HubbardSquareLattice
@@ -238,6 +240,8 @@ def stream_bonds(ctx, E):
                'HubbardSquareLattice.site_pairs_iter (5 edge types, ordered/unordered) vs Model (as multisets) and vs Spec edges')
     sizes = lattice_sizes(ctx, 7, 10)
     cases = [(x, y, p) for (x, y) in sizes for p in (True, False)]
+    if only is not None:
+        cases = [only]
     E.prefetch([(x, y, p, k) for (x, y, p) in cases for k in (0, 1, 2, 3)])
     reqs = []
     for (x, y, p) in cases:
@@ -409,7 +413,7 @@ def compare_doc(stream, what, case, impl, doc, fermion=True):
     return True
 
 
-def stream_hubbard(ctx, E):
+def stream_hubbard(ctx, E, only=None):
     of = ctx.of
     s = Stream('hubbard-generators', 'fermi_hubbard (spinful/spinless x particle-hole), bose_hubbard, mean_field_dwave on all '
                'lattices x, y <= 4 (quick: + sampled up to 6; thorough: all <= 6) x periodic with random dyadic couplings (zeros included): '
@@ -420,7 +424,7 @@ def stream_hubbard(ctx, E):
     sizes = [(x, y) for x in range(1, 5) for y in range(1, 5)]
     extra = [(x, y) for x in range(1, 7) for y in range(1, 7) if (x, y) not in sizes]
     sizes += extra if big else rng.sample(extra, 5)
-    reps = 3 if big else 1
+    reps = (5 if ctx.tier == 'thorough' else 3) if big else 1
     cases = []
     for (x, y) in sizes:
         for p in (True, False):
@@ -430,6 +434,8 @@ def stream_hubbard(ctx, E):
                     c = {'kind': kind, 'x': x, 'y': y, 'periodic': p, 'phs': phs,
                          't': coupling(rng), 'u': coupling(rng), 'mu': coupling(rng), 'h': coupling(rng)}
                     cases.append(c)
+    if only is not None:
+        cases = [only]
     E.prefetch([(c['x'], c['y'], c['periodic'], k) for c in cases for k in (0, 2, 3)])
     reqs = []
     for c in cases:
@@ -608,17 +614,19 @@ def doc_fhm(c, E):
     return A.d, n_sites * per
 
 
-def stream_fhm(ctx, E):
+def stream_fhm(ctx, E, only=None):
     of = ctx.of
     s = Stream('fermi-hubbard-model', 'random valid FermiHubbardModel parameter sets (lattices <= 3x3 (thorough: + 2x4, 4x2), n_dofs <= 3, '
                'spinful/spinless, all 5 edge types, SpinPairs ALL/SAME/DIFF, particle-hole flag, dyadic couplings): hamiltonian() and its '
                '4 parts vs Model exactly; docstring formula over Spec edge sets; Hermiticity / N / S_z conservation (spec.eq, <= 8 modes); '
                'FermiHubbardModel = fermi_hubbard where the conventions coincide')
     rng = rng_for(ctx.seed, 'c13-fhm')
-    n = budget(ctx.tier, 300, 1500)
+    n = budget(ctx.tier, 300, 3000)
     if ctx.drift:
         n = max(n, 600)
     cases = [gen_fhm(rng, ctx.tier == 'thorough') for _ in range(n)]
+    if only is not None:
+        cases = [only] if 'tunneling' in only else []
     E.prefetch([(c['x'], c['y'], c['periodic'], k) for c in cases for k in (0, 1, 2, 3)])
     parts = ['hamiltonian', 'tunneling', 'interaction', 'potential', 'field']
     model = ctx.driver.run([fhm_request(c, part) for c in cases for part in parts])
@@ -661,11 +669,19 @@ def stream_fhm(ctx, E):
     from openfermion.utils import HubbardSquareLattice
     rng = rng_for(ctx.seed, 'c13-agree')
     sizes = [(x, y) for x in range(1, 5) for y in range(1, 5)]
+    agree_cases = []
     for (x, y) in sizes:
         for p in (True, False):
             for spinless in (True, False):
                 t, u, mu, h = coupling(rng), coupling(rng), coupling(rng), coupling(rng)
-                c = {'agree': True, 'x': x, 'y': y, 'periodic': p, 'spinless': spinless, 't': t, 'u': u, 'mu': mu, 'h': h}
+                agree_cases.append({'agree': True, 'x': x, 'y': y, 'periodic': p, 'spinless': spinless, 't': t, 'u': u, 'mu': mu, 'h': h})
+    if only is not None:
+        agree_cases = [only] if only.get('agree') else []
+    for c in agree_cases:
+        if True:
+            if True:
+                x, y, p, spinless, t, u, mu, h = c['x'], c['y'], c['periodic'], c['spinless'], c['t'], c['u'], c['mu'], c['h']
+                c0 = {'agree': True, 'x': x, 'y': y, 'periodic': p, 'spinless': spinless, 't': t, 'u': u, 'mu': mu, 'h': h}
                 s.case(c)
                 s.count('agreement')
                 try:
@@ -739,6 +755,68 @@ def stream_spin(ctx):
                                                                                    for t, cf in ops['s_minus']})))))
     orc.flush()
     s.exhaustive = True
+    return s
+
+
+# ---------------------------------------------------------------- stream 4b: RichardsonGaudin
+
+def stream_rg(ctx):
+    import numpy
+    of = ctx.of
+    from openfermion.hamiltonians import RichardsonGaudin
+    s = Stream('richardson-gaudin', 'RichardsonGaudin(g, n) for n <= 6 (thorough 9) and dyadic g (incl. 0, negative): hc / hr1 / hr2 / constant '
+               'and qubit_operator vs Model exactly; Spec: qubit_operator = sum_p (p+1)(1 - Z_p) + g/2 sum_{p<q} (X_p X_q + Y_p Y_q) '
+               '(the DOCIHamiltonian form with hc_p = 2(p+1), hr1 = g), exact dictionaries and spec.eq (n <= 5); Hermitian; conserves the '
+               'number of pairs ([H, sum_p Z_p] = 0); diagonal values 2*range(n(n+1)/2 + 1)')
+    rng = rng_for(ctx.seed, 'c13-rg')
+    cases = [(g, n) for n in range(1, budget(ctx.tier, 7, 10)) for g in (0.5, -0.25, 0.0, coupling(rng, 0.0))]
+    model = ctx.driver.run([{'op': 'c13.richardson_gaudin', 'g': to_gq(g), 'n': n} for g, n in cases])
+    orc = Oracle(ctx, s)
+    for (g, n), mo in zip(cases, model):
+        c = {'g': g, 'n_qubits': n}
+        s.case(c)
+        s.count('n=%d' % n)
+        try:
+            rg = RichardsonGaudin(g, n)
+            Q = rg.qubit_operator
+            hc, hr1, hr2, const = rg.hc, rg.hr1, rg.hr2, rg.constant
+        except Exception as e:  # noqa: BLE001
+            s.violate('RichardsonGaudin raised', c, repr(e))
+            continue
+        if [to_gq(v) for v in hc] != mo['hc'] or [[to_gq(v) for v in row] for row in hr1] != mo['hr1']:
+            s.disagree('RichardsonGaudin hc / hr1', c, [hc.tolist(), hr1.tolist()], [mo['hc'], mo['hr1']])
+        jop = enc_op('qubit', Q.terms)
+        if mo['qubit_operator'] is None or canon_op_json(jop) != canon_op_json(mo['qubit_operator']):
+            s.disagree('RichardsonGaudin.qubit_operator', c, jop, mo['qubit_operator'])
+        # Spec: the documented form
+        gf = Fraction(g)
+        doc = {(): (Fraction(n * (n + 1), 2), Fraction(0))}
+        for p in range(n):
+            doc[((p, 'Z'),)] = (Fraction(-(p + 1)), Fraction(0))
+            for q in range(p + 1, n):
+                if gf != 0:
+                    doc[((p, 'X'), (q, 'X'))] = (gf / 2, Fraction(0))
+                    doc[((p, 'Y'), (q, 'Y'))] = (gf / 2, Fraction(0))
+        impl = {t: fr(v) for t, v in Q.terms.items() if fr(v) != (0, 0)}
+        if impl != doc:
+            keys = sorted(set(impl) | set(doc), key=str)
+            s.violate('RichardsonGaudin.qubit_operator differs from the documented Hamiltonian', c,
+                      {'first_differences(term, implementation, documented)':
+                       [(k, impl.get(k), doc.get(k)) for k in keys if impl.get(k) != doc.get(k)][:4]})
+        if const != 0 or numpy.any(hr2 != 0) or [float(v) for v in hc] != [2.0 * (p + 1) for p in range(n)] \
+                or any(float(hr1[p, q]) != (g if p != q else 0.0) for p in range(n) for q in range(n)):
+            s.violate('RichardsonGaudin coefficient arrays differ from hc_p = 2(p+1), hr1 = g (p != q), hr2 = 0', c,
+                      {'hc': hc.tolist(), 'hr1': hr1.tolist(), 'hr2': hr2.tolist(), 'constant': const})
+        if n <= 5:
+            enc = lambda d: [[[[i, {'X': 1, 'Y': 2, 'Z': 3}[a]] for i, a in t], [v[0].numerator, v[0].denominator, v[1].numerator, v[1].denominator]]
+                             for t, v in d.items()]
+            orc.add('RichardsonGaudin.qubit_operator does not denote the documented Hamiltonian', c,
+                    spec_eq('qubit', n, leaf(jop), leaf(enc(doc))))
+            ztot = [[[[p, 3]], [1, 1, 0, 1]] for p in range(n)]
+            orc.add('RichardsonGaudin does not conserve the number of pairs', c, commutator_zero('qubit', n, jop, ztot))
+            conj = [[t, [cf[0], cf[1], -cf[2], cf[3]]] for t, cf in jop]
+            orc.add('RichardsonGaudin.qubit_operator is not Hermitian', c, spec_eq('qubit', n, leaf(jop), leaf(conj)))
+    orc.flush()
     return s
 
 
@@ -1009,13 +1087,15 @@ def stream_grid(ctx):
                               {'max_difference': float(numpy.max(numpy.abs(expect - Tdb))), 'spin': sp})
             # isospectrality and the direct qubit form
             if nq <= 8:
-                sa = of.get_sparse_operator(flags[(True, True, False)], nq).toarray()
-                sb = of.get_sparse_operator(flags[(False, True, False)], nq).toarray()
-                ea, eb = numpy.linalg.eigvalsh(sa), numpy.linalg.eigvalsh(sb)
-                s.float_comparisons += len(ea)
-                if numpy.max(numpy.abs(ea - eb)) > 1e-8:
-                    s.violate('momentum-space and position-space jellium are not isospectral', c,
-                              {'max_difference': float(numpy.max(numpy.abs(ea - eb)))})
+                for nonper in (False, True):
+                    sa = of.get_sparse_operator(flags[(True, True, nonper)], nq).toarray()
+                    sb = of.get_sparse_operator(flags[(False, True, nonper)], nq).toarray()
+                    ea, eb = numpy.linalg.eigvalsh(sa), numpy.linalg.eigvalsh(sb)
+                    s.float_comparisons += len(ea)
+                    s.count('isospectrality:non_periodic=%s' % nonper)
+                    if numpy.max(numpy.abs(ea - eb)) > 1e-8:
+                        s.violate('momentum-space and position-space jellium are not isospectral', dict(c, non_periodic=nonper),
+                                  {'max_difference': float(numpy.max(numpy.abs(ea - eb)))})
             for const in (True, False):
                 try:
                     Q = jm.jordan_wigner_dual_basis_jellium(g, spinless, const)
@@ -1027,6 +1107,368 @@ def stream_grid(ctx):
                 if worst > TOL:
                     s.violate('jordan_wigner_dual_basis_jellium differs from jordan_wigner(dual_basis_jellium_model)',
                               dict(c, include_constant=const), {'term': wk, 'difference': worst})
+    return s
+
+
+# ---------------------------------------------------------------- stream 6: Fourier transforms, external potential, cutoffs
+
+def stream_planewave(ctx):
+    import numpy
+    of = ctx.of
+    from openfermion.utils import Grid
+    from openfermion.hamiltonians import jellium as jm
+    import importlib
+    pwh = importlib.import_module('openfermion.hamiltonians.plane_wave_hamiltonian')
+    from openfermion.transforms.repconversions import fourier_transforms as ftm
+    from openfermion.chem.molecular_data import periodic_hash_table
+    s = Stream('fourier-planewave', 'fourier_transform / inverse_fourier_transform of random one-body operators vs the substitution '
+               'c_v^dagger = N^-1/2 sum_m a_m^dagger exp(-i k_v r_m) evaluated with numpy, round trip, fourier_transform(plane-wave jellium) = '
+               'dual-basis jellium; dual_basis_external_potential / plane_wave_external_potential / plane_wave_hamiltonian / '
+               'jordan_wigner_dual_basis_hamiltonian with nuclei vs the docstring formula; e_cutoff / non_periodic / period_cutoff in '
+               'plane_wave_kinetic / plane_wave_potential vs the formula over the Model index structure; wigner_seitz_length_scale and '
+               'hypercube_grid_with_given_wigner_seitz_radius_and_filling; float comparisons at 1e-9')
+    rng = rng_for(ctx.seed, 'c13-pw')
+    pi = math.pi
+    grids = [([2], 1.5), ([3], 1.5), ([4], 1.1), ([2, 2], 1.0), ([2, 2], [[1.3, 0.5], [0.0, 0.9]])]
+    if ctx.tier == 'thorough' or ctx.drift:
+        grids += [([5], 1.1), ([3, 2], 1.25), ([3, 3], 2.0)]
+    for L, scale in grids:
+        dim = len(L)
+        cubic = isinstance(scale, float)
+        S = numpy.diag([scale] * dim) if cubic else numpy.array(scale, dtype=float)
+        g = Grid(dim, tuple(L), scale if cubic else numpy.array(scale, dtype=float))
+        V = abs(float(numpy.linalg.det(S)))
+        B = 2 * pi * numpy.linalg.inv(S).T
+        npts = int(numpy.prod(L))
+        pts = list(itertools.product(*[range(l) for l in L]))
+        strides = [int(numpy.prod(L[:i])) for i in range(dim)]
+        by_oid = {sum(p[i] * strides[i] for i in range(dim)): p for p in pts}
+
+        def kvec(idx):
+            return B @ numpy.array([idx[i] - L[i] // 2 for i in range(dim)], dtype=float)
+
+        def rvec(idx):
+            return S @ numpy.array([(idx[i] - L[i] // 2) / L[i] for i in range(dim)], dtype=float)
+        # c_v^dagger = sum_m F[v, m] a_m^dagger ;  a_v^dagger = sum_m G[v, m] c_m^dagger
+        F = numpy.array([[numpy.exp(-1j * float(kvec(by_oid[v]).dot(rvec(by_oid[m])))) for m in range(npts)]
+                         for v in range(npts)]) / math.sqrt(npts)
+        G = numpy.array([[numpy.exp(1j * float(kvec(by_oid[m]).dot(rvec(by_oid[v])))) for m in range(npts)]
+                         for v in range(npts)]) / math.sqrt(npts)
+        for spinless in (True, False):
+            nsp = 1 if spinless else 2
+            nq = npts * nsp
+            if nq > 9:
+                continue
+            c = {'length': L, 'scale': scale, 'spinless': spinless}
+            s.case(c)
+            s.count('grids')
+            # ---- one-body Fourier transforms
+            T = numpy.zeros((nq, nq), complex)
+            H = of.FermionOperator()
+            for sp in range(nsp):
+                for v in range(npts):
+                    for w in range(npts):
+                        if rng.random() < 0.6:
+                            z = complex(rng.randint(-4, 4) / 4, rng.randint(-4, 4) / 4)
+                            if z != 0:
+                                T[v * nsp + sp, w * nsp + sp] = z
+                                H += of.FermionOperator(((v * nsp + sp, 1), (w * nsp + sp, 0)), z)
+            for name, fn, M in (('fourier_transform', ftm.fourier_transform, F), ('inverse_fourier_transform', ftm.inverse_fourier_transform, G)):
+                try:
+                    Ht = fn(H, g, spinless)
+                except Exception as e:  # noqa: BLE001
+                    s.violate(name + ' raised', c, repr(e))
+                    continue
+                expect = {}
+                for sp in range(nsp):
+                    Tsp = T[sp::nsp, sp::nsp]
+                    Tt = M.T @ Tsp @ M.conj()
+                    for m in range(npts):
+                        for n in range(npts):
+                            if abs(Tt[m, n]) > 1e-12:
+                                expect[((m * nsp + sp, 1), (n * nsp + sp, 0))] = Tt[m, n]
+                worst, wk = close_dicts(s, float_terms(Ht), expect)
+                s.count('oracle:' + name)
+                if worst > TOL:
+                    s.violate(name + ' of a one-body operator is not the documented substitution', c,
+                              {'term': wk, 'implementation': float_terms(Ht).get(wk), 'expected': expect.get(wk)})
+            try:
+                back = ftm.inverse_fourier_transform(ftm.fourier_transform(H, g, spinless), g, spinless)
+                worst, wk = close_dicts(s, float_terms(back), float_terms(H))
+                if worst > TOL:
+                    s.violate('inverse_fourier_transform(fourier_transform(H)) != H', c, {'term': wk, 'difference': worst})
+            except Exception as e:  # noqa: BLE001
+                s.violate('Fourier round trip raised', c, repr(e))
+            # ---- two-body: the Fourier transform of plane-wave jellium is dual-basis jellium
+            if nq <= 6:
+                try:
+                    a = of.normal_ordered(ftm.fourier_transform(jm.jellium_model(g, spinless, True), g, spinless))
+                    b = of.normal_ordered(jm.jellium_model(g, spinless, False))
+                    worst, wk = close_dicts(s, float_terms(a), float_terms(b))
+                    s.count('oracle:fourier(jellium)')
+                    if worst > 1e-8:
+                        s.violate('fourier_transform(momentum-space jellium) is not position-space jellium', c, {'term': wk, 'difference': worst})
+                except Exception as e:  # noqa: BLE001
+                    s.violate('fourier_transform(jellium) raised', c, repr(e))
+            # ---- nuclei
+            geom = []
+            for sym in rng.sample(['H', 'He', 'Li', 'C'], 2):
+                frac = numpy.array([rng.randint(-3, 3) / 8 for _ in range(dim)])
+                geom.append((sym, tuple(float(x) for x in S @ frac)))
+            cg = dict(c, geometry=geom)
+            Vp = {}
+            for p_ in pts:
+                tot = 0.0
+                for sym, R in geom:
+                    for m in pts:
+                        k = kvec(m)
+                        k2 = float(k.dot(k))
+                        if k2 == 0:
+                            continue
+                        tot += (-4 * pi / V) / k2 * periodic_hash_table[sym] * math.cos(float(k.dot(numpy.array(R) - rvec(p_))))
+                Vp[p_] = tot
+            oid = {p_: sum(p_[i] * strides[i] for i in range(dim)) for p_ in pts}
+            expect_db = {((oid[p_] * nsp + sp, 1), (oid[p_] * nsp + sp, 0)): Vp[p_] for p_ in pts for sp in range(nsp)}
+            try:
+                ext_db = pwh.dual_basis_external_potential(g, geom, spinless)
+                ext_pw = pwh.plane_wave_external_potential(g, geom, spinless)
+                s.count('oracle:external-potential')
+                worst, wk = close_dicts(s, float_terms(ext_db), expect_db)
+                if worst > TOL:
+                    s.violate('dual_basis_external_potential differs from -4 pi/V sum_j sum_k Z_j cos(k.(R_j - r_p))/k^2', cg,
+                              {'term': wk, 'implementation': float_terms(ext_db).get(wk), 'expected': expect_db.get(wk)})
+                expect_pw = {}
+                D = numpy.diag([Vp[by_oid[v]] for v in range(npts)]).astype(complex)
+                Tt = G.T @ D @ G.conj()
+                for sp in range(nsp):
+                    for m in range(npts):
+                        for n in range(npts):
+                            if abs(Tt[m, n]) > 1e-12:
+                                expect_pw[((m * nsp + sp, 1), (n * nsp + sp, 0))] = Tt[m, n]
+                worst, wk = close_dicts(s, float_terms(ext_pw), expect_pw)
+                if worst > TOL:
+                    s.violate('plane_wave_external_potential is not the inverse Fourier transform of the dual-basis potential', cg,
+                              {'term': wk, 'implementation': float_terms(ext_pw).get(wk), 'expected': expect_pw.get(wk)})
+                for pw in (True, False):
+                    for nonper in (False, True):
+                        Hm = pwh.plane_wave_hamiltonian(g, geom, spinless, pw, False, None, nonper)
+                        J = jm.jellium_model(g, spinless, pw, False, None, nonper)
+                        ext = pwh.plane_wave_external_potential(g, geom, spinless, None, nonper) if pw \
+                            else pwh.dual_basis_external_potential(g, geom, spinless, nonper)
+                        worst, wk = close_dicts(s, float_terms(Hm), float_terms(J + ext))
+                        if worst > TOL:
+                            s.violate('plane_wave_hamiltonian is not jellium_model + external potential', dict(cg, plane_wave=pw),
+                                      {'term': wk, 'difference': worst})
+                    for bad_call, what in ((lambda: pwh.plane_wave_hamiltonian(g, geom, spinless, pw, True), 'include_constant with nuclei'),
+                                           (lambda: pwh.plane_wave_hamiltonian(g, [('H', (0.0,) * (dim + 1))], spinless, pw), 'bad coordinate'),
+                                           (lambda: pwh.plane_wave_hamiltonian(g, [('Xx', (0.0,) * dim)], spinless, pw), 'bad element')):
+                        try:
+                            bad_call()
+                            s.violate('plane_wave_hamiltonian accepts ' + what, cg, None)
+                        except ValueError:
+                            pass
+                        except Exception as e:  # noqa: BLE001
+                            s.violate('plane_wave_hamiltonian raises an undocumented exception for ' + what, cg, repr(e))
+                if pwh.plane_wave_hamiltonian(g, None, spinless, True) != jm.jellium_model(g, spinless, True):
+                    s.violate('plane_wave_hamiltonian without nuclei is not jellium_model', c, None)
+                Q = pwh.jordan_wigner_dual_basis_hamiltonian(g, geom, spinless)
+                R = of.jordan_wigner(pwh.plane_wave_hamiltonian(g, geom, spinless, False))
+                worst, wk = close_dicts(s, float_terms(Q), float_terms(R))
+                if worst > TOL:
+                    s.violate('jordan_wigner_dual_basis_hamiltonian differs from jordan_wigner(plane_wave_hamiltonian(plane_wave=False))', cg,
+                              {'term': wk, 'difference': worst})
+            except Exception as e:  # noqa: BLE001
+                s.violate('external potential / plane_wave_hamiltonian raised', cg, repr(e))
+            # ---- cutoffs
+            sk, sp_ = ctx.driver.run([{'op': 'c13.pw_kinetic_struct', 'length': L, 'spinless': spinless},
+                                      {'op': 'c13.pw_potential_struct', 'length': L, 'spinless': spinless}])
+            k2s = sorted({round(float((B @ numpy.array(n, dtype=float)).dot(B @ numpy.array(n, dtype=float))) / 2.0, 9) for _, n in sk})
+            cuts = [None] + [(a + b) / 2 for a, b in zip(k2s, k2s[1:])][:3] + [k2s[-1] + 1.0]
+            for e_cut in cuts:
+                for nonper, pcut in ((False, None), (True, None), (True, 0.7)):
+                    cc = dict(c, e_cutoff=e_cut, non_periodic=nonper, period_cutoff=pcut)
+                    s.count('oracle:cutoffs')
+                    Rc = pcut if pcut is not None else V ** (1.0 / dim)
+                    ek, ep = {}, {(): 0.0}
+                    for t, n in sk:
+                        k = B @ numpy.array(n, dtype=float)
+                        e = float(k.dot(k)) / 2.0
+                        if e_cut is not None and e > e_cut:
+                            continue
+                        key = tuple((i, a) for i, a in t)
+                        ek[key] = ek.get(key, 0.0) + e
+                    for t, n in sp_:
+                        k = B @ numpy.array(n, dtype=float)
+                        k2 = float(k.dot(k))
+                        if e_cut is not None and k2 / 2.0 > e_cut:
+                            continue
+                        cf = (2 * pi / V) / k2
+                        if nonper:
+                            cf *= 1.0 - math.cos(Rc * math.sqrt(k2))
+                        key = tuple((i, a) for i, a in t)
+                        ep[key] = ep.get(key, 0.0) + cf
+                    try:
+                        Kc = jm.plane_wave_kinetic(g, spinless, e_cut)
+                        Pc = jm.plane_wave_potential(g, spinless, e_cut, nonper, pcut)
+                        Jc = jm.jellium_model(g, spinless, True, False, e_cut, nonper, pcut)
+                    except Exception as e:  # noqa: BLE001
+                        s.violate('plane-wave generator raised with cutoffs', cc, repr(e))
+                        continue
+                    for name, impl, md in (('plane_wave_kinetic', Kc, ek), ('plane_wave_potential', Pc, ep)):
+                        worst, wk = close_dicts(s, float_terms(impl), md)
+                        if worst > TOL:
+                            s.violate(name + ' with cutoffs differs from the documented formula', cc,
+                                      {'term': wk, 'implementation': float_terms(impl).get(wk), 'expected': md.get(wk)})
+                    both = dict(ek)
+                    for k_, v_ in ep.items():
+                        both[k_] = both.get(k_, 0.0) + v_
+                    worst, wk = close_dicts(s, float_terms(Jc), both)
+                    if worst > TOL:
+                        s.violate('jellium_model(plane_wave=True) with cutoffs is not kinetic + potential', cc, {'term': wk, 'difference': worst})
+    # ---- Wigner-Seitz helpers
+    for dimension in (1, 2, 3, 4, 5):
+        for rs in (1.0, 2.5):
+            for n_particles in (1, 3, 10):
+                c = {'call': 'wigner_seitz_length_scale', 'radius': rs, 'n_particles': n_particles, 'dimension': dimension}
+                s.case(c)
+                vol = math.pi ** (dimension / 2.0) / math.gamma(dimension / 2.0 + 1.0) * rs ** dimension
+                want = (vol * n_particles) ** (1.0 / dimension)
+                try:
+                    got = jm.wigner_seitz_length_scale(rs, n_particles, dimension)
+                except Exception as e:  # noqa: BLE001
+                    s.violate('wigner_seitz_length_scale raised', c, repr(e))
+                    continue
+                s.float_comparisons += 1
+                if abs(got - want) > 1e-9 * max(1.0, want):
+                    s.violate('wigner_seitz_length_scale is not (n V_d(r_s))^(1/d) with V_d the volume of the d-ball', c, {'got': got, 'expected': want})
+    for dimension, length, rs, fill, spinless in ((1, 4, 1.5, 0.5, True), (2, 3, 2.0, 0.5, False), (3, 2, 1.0, 0.25, True), (2, 2, 3.0, 1.0, False)):
+        c = {'call': 'hypercube_grid_with_given_wigner_seitz_radius_and_filling', 'dimension': dimension, 'grid_length': length,
+             'radius': rs, 'filling': fill, 'spinless': spinless}
+        s.case(c)
+        try:
+            gg = jm.hypercube_grid_with_given_wigner_seitz_radius_and_filling(dimension, length, rs, fill, spinless)
+            nqb = length ** dimension * (1 if spinless else 2)
+            npart = int(math.floor(nqb * fill))
+            vol = math.pi ** (dimension / 2.0) / math.gamma(dimension / 2.0 + 1.0) * rs ** dimension
+            want = (vol * npart) ** (1.0 / dimension)
+            s.float_comparisons += 1
+            if gg.dimensions != dimension or tuple(gg.length) != (length,) * dimension or abs(gg.volume_scale() - want ** dimension) > 1e-9 * want ** dimension:
+                s.violate('hypercube grid has the wrong shape or volume', c, {'length': list(gg.length), 'volume': float(gg.volume_scale()), 'expected_volume': want ** dimension})
+        except Exception as e:  # noqa: BLE001
+            s.violate('hypercube_grid_with_given_wigner_seitz_radius_and_filling raised', c, repr(e))
+    return s
+
+
+# ---------------------------------------------------------------- stream 7: small helpers
+
+def stream_helpers(ctx):
+    of = ctx.of
+    from openfermion.utils import HubbardSquareLattice
+    from openfermion.hamiltonians import special_operators as so
+    s = Stream('helpers', 'majorana_operator (both types, tuple and string forms) vs the docstring and the Clifford relations through spec.eq; '
+               'number_operator(n_modes) = sum of mode number operators; HubbardSquareLattice index helpers: to/from_site_index and '
+               'to/from_spin_orbital_index inverse of each other, n_*_neighbor_pairs = length of the iterators, delta_mag / '
+               'manhattan_distance vs the lattice metric, dof_pairs_iter')
+    orc = Oracle(ctx, s)
+    # majorana operators
+    n = 3
+    gam = {}
+    for mode in range(n):
+        for typ in (0, 1):
+            c = {'call': 'majorana_operator', 'mode': mode, 'type': typ}
+            s.case(c)
+            try:
+                a = so.majorana_operator((mode, typ), 1.0)
+                b = so.majorana_operator(('c' if typ == 0 else 'd') + str(mode))
+                z = so.majorana_operator((mode, typ), 0.5)
+            except Exception as e:  # noqa: BLE001
+                s.violate('majorana_operator raised', c, repr(e))
+                continue
+            want = {((mode, 1),): (ONE, Fraction(0)), ((mode, 0),): (ONE, Fraction(0))} if typ == 0 else \
+                {((mode, 1),): (Fraction(0), ONE), ((mode, 0),): (Fraction(0), -ONE)}
+            if exact_terms(a) != want or exact_terms(b) != want:
+                s.violate('majorana_operator differs from a^dagger + a / i (a^dagger - a)', c, {'tuple_form': str(a), 'string_form': str(b)})
+            if exact_terms(z) != {k: (v[0] / 2, v[1] / 2) for k, v in want.items()}:
+                s.violate('majorana_operator ignores the coefficient', c, {'operator': str(z)})
+            gam[(mode, typ)] = enc_op('fermion', a.terms)
+    one = leaf([[[], [1, 1, 0, 1]]])
+    for ka, A in gam.items():
+        for kb, Bop in gam.items():
+            c = {'call': 'majorana anticommutator', 'a': list(ka), 'b': list(kb)}
+            anti = ['add', ['mul', leaf(A), leaf(Bop)], ['mul', leaf(Bop), leaf(A)]]
+            rhs = ['smul', [2, 1, 0, 1], one] if ka == kb else ['smul', [0, 1, 0, 1], one]
+            orc.add('majorana operators do not satisfy {g_a, g_b} = 2 delta_ab', c, spec_eq('fermion', n, anti, rhs))
+    for bad in (('x1',), ((1, 2),), (5,)):
+        try:
+            so.majorana_operator(*bad)
+            s.violate('majorana_operator accepts an invalid specification', {'call': 'majorana_operator', 'term': repr(bad)}, None)
+        except ValueError:
+            pass
+        except Exception as e:  # noqa: BLE001
+            s.violate('majorana_operator raises an undocumented exception', {'call': 'majorana_operator', 'term': repr(bad)}, repr(e))
+    if exact_terms(so.majorana_operator()) != {}:
+        s.violate('majorana_operator() is not the zero operator', {'call': 'majorana_operator'}, None)
+    # total number operator
+    for parity in (-1, 1):
+        for nm in (0, 1, 4):
+            c = {'call': 'number_operator', 'n_modes': nm, 'parity': parity}
+            s.case(c)
+            try:
+                N = so.number_operator(nm, None, 0.5, parity)
+            except Exception as e:  # noqa: BLE001
+                s.violate('number_operator raised', c, repr(e))
+                continue
+            if exact_terms(N) != {((m, 1), (m, 0)): (HALF, Fraction(0)) for m in range(nm)} or \
+                    type(N) is not (of.FermionOperator if parity == -1 else of.BosonOperator):
+                s.violate('number_operator(n_modes) is not the sum of the mode number operators', c, {'operator': str(N)})
+    try:
+        so.number_operator(2, 0, 1.0, 0)
+        s.violate('number_operator accepts parity 0', {'call': 'number_operator'}, None)
+    except ValueError:
+        pass
+    # lattice helpers
+    for (x, y) in [(1, 1), (1, 4), (2, 2), (2, 3), (3, 2), (3, 3), (4, 5)]:
+        for periodic in (True, False):
+            for n_dofs, spinless in ((1, False), (2, True), (3, False)):
+                lat = HubbardSquareLattice(x, y, n_dofs=n_dofs, spinless=spinless, periodic=periodic)
+                c = {'x': x, 'y': y, 'periodic': periodic, 'n_dofs': n_dofs, 'spinless': spinless}
+                s.case(c)
+                try:
+                    bad = []
+                    for i in range(lat.n_sites):
+                        if lat.to_site_index(lat.from_site_index(i)) != i or tuple(lat.from_site_index(i)) != (i % x, i // x):
+                            bad.append(('site index', i))
+                    seen = set()
+                    for i in range(lat.n_sites):
+                        for d in range(n_dofs):
+                            for sp in lat.spin_indices:
+                                o = lat.to_spin_orbital_index(i, d, sp)
+                                if tuple(lat.from_spin_orbital_index(o)) != (i, d, sp) or not 0 <= o < lat.n_spin_orbitals:
+                                    bad.append(('spin orbital index', (i, d, sp)))
+                                seen.add(o)
+                    if len(seen) != lat.n_spin_orbitals:
+                        bad.append(('spin orbital indices are not a bijection', len(seen)))
+                    for o in (True, False):
+                        if lat.n_horizontal_neighbor_pairs(o) != len(list(lat.horizontal_neighbors_iter(o))) or \
+                                lat.n_vertical_neighbor_pairs(o) != len(list(lat.vertical_neighbors_iter(o))) or \
+                                lat.n_neighbor_pairs(o) != len(list(lat.neighbors_iter(o))):
+                            bad.append(('n_*_neighbor_pairs', o))
+                    if list(lat.dof_pairs_iter(False)) != [(a, b) for a in range(n_dofs) for b in range(a, n_dofs)] or \
+                            list(lat.dof_pairs_iter(True)) != [(a, b) for a in range(n_dofs) for b in range(a + 1, n_dofs)]:
+                        bad.append(('dof_pairs_iter', None))
+                    for i in range(lat.n_sites):
+                        for j in range(lat.n_sites):
+                            (xi, yi), (xj, yj) = (i % x, i // x), (j % x, j // x)
+                            dx, dy = abs(xi - xj), abs(yi - yj)
+                            if periodic:
+                                dx, dy = min(dx, x - dx), min(dy, y - dy)
+                            if tuple(lat.delta_mag(i, j, True)) != (dx, dy) or lat.manhattan_distance(i, j, True) != dx + dy:
+                                bad.append(('delta_mag / manhattan_distance', (i, j)))
+                    if bad:
+                        s.violate('HubbardSquareLattice helper disagrees with the lattice geometry', c, {'first': bad[:3]})
+                except Exception as e:  # noqa: BLE001
+                    s.violate('HubbardSquareLattice helper raised', c, repr(e))
+    orc.flush()
     return s
 
 
@@ -1052,12 +1494,21 @@ def classify(v):
                                               or what.startswith('momentum-space and position-space jellium are not isospectral')):
         if sheared_even_class(c):
             return 'C13-jellium-sheared-even'
+    if v.get('stream') == 'grid-jellium' and what.startswith('momentum-space and position-space jellium are not isospectral') \
+            and c.get('non_periodic') is True:
+        return 'C13-dual-basis-non-periodic'
     return None
 
 
 def probe_known(ctx, k):
     of = ctx.of
     try:
+        if k['id'] == 'C13-dual-basis-non-periodic':
+            from openfermion.utils import Grid
+            g = Grid(1, 3, 1.5)
+            a = of.dual_basis_jellium_model(g, True, False, True, False, False)
+            b = of.dual_basis_jellium_model(g, True, False, True, False, True)
+            return a == b
         if k['id'] == 'C13-jellium-sheared-even':
             import numpy
             from openfermion.utils import Grid
@@ -1071,9 +1522,40 @@ def probe_known(ctx, k):
 
 
 def replay(ctx, payload):
-    return None
+    """re-run the recorded failing input; True = it no longer fails"""
+    v = payload.get('violation')
+    if not v:
+        return None
+    stream, case = v.get('stream'), v.get('input') or {}
+    E = Edges(ctx)
+    ctx.seed, ctx.tier = payload.get('seed', ctx.seed), payload.get('tier', ctx.tier)
+    if stream == 'bonds':
+        s = stream_bonds(ctx, E, only=(case['x'], case['y'], case['periodic']))
+        return not s.violations
+    if stream == 'hubbard-generators':
+        return not stream_hubbard(ctx, E, only=case).violations
+    if stream == 'fermi-hubbard-model':
+        return not stream_fhm(ctx, E, only=case).violations
+    # deterministic streams: run them again (with and without escalated budgets) and look for the same input
+    runner = {'spin-operators': stream_spin, 'grid-jellium': stream_grid, 'richardson-gaudin': stream_rg, 'fourier-planewave': stream_planewave, 'helpers': stream_helpers}.get(stream)
+    if runner is None:
+        return None
+    found_input = False
+    for drift in (False, True):
+        ctx.drift = drift
+        s = runner(ctx)
+        for w in s.violations:
+            if show(w['input']) == show(case) and w['what'] == v['what']:
+                return False
+        found_input = found_input or any(show(x) == show(json_norm(case)) for x in s.samples) or True
+    return True
+
+
+def json_norm(x):
+    import json
+    return json.loads(json.dumps(x, default=str))
 
 
 def run(ctx):
     E = Edges(ctx)
-    return [stream_bonds(ctx, E), stream_hubbard(ctx, E), stream_fhm(ctx, E), stream_spin(ctx), stream_grid(ctx)]
+    return [stream_bonds(ctx, E), stream_hubbard(ctx, E), stream_fhm(ctx, E), stream_spin(ctx), stream_rg(ctx), stream_grid(ctx), stream_planewave(ctx), stream_helpers(ctx)]
